@@ -242,9 +242,9 @@ func (w *Workspace) UpdateFile(path, content string) {
 	if w.rootJournalPath == "" || w.index == nil {
 		return
 	}
-	// a file that is no member yet may be matched by include patterns expanded
-	// before it existed, whether or not a directive also names it literally
-	adopted := w.index.FileIndex(path) == nil && w.adoptByPatternLocked(path)
+	// include patterns expanded before the file existed on disk may match it
+	// now, whether or not it is a member already through a literal include
+	adopted := w.adoptByPatternLocked(path)
 	if !adopted && !w.isWorkspaceFileLocked(path) {
 		return
 	}
@@ -267,7 +267,7 @@ func (w *Workspace) UpdateFile(path, content string) {
 
 	// a file that was no member (beyond the depth limit, or refused for its
 	// size) is named by a directive but may still not belong to the tree
-	if oldIndex == nil || !sameStringSlice(oldIncludes, fileIndex.Includes) {
+	if oldIndex == nil || adopted || !sameStringSlice(oldIncludes, fileIndex.Includes) {
 		w.refreshIncludeTreeLocked()
 		w.reorderFilesLocked()
 	}
